@@ -26,16 +26,6 @@ def scalarStr : Scalar → String
   | .float .nan => "float:nan"
   | .str _ => "str"
 
-/-- Documented deviations of `resolve_plain` from the core schema (scalar.rs header): integers
-outside `i64` (decimal ⇒ float or, when not finite, string; based ⇒ string) and decimal floats that
-overflow `f64` (⇒ string).  Everything else must agree. -/
-def resolveAgrees (spec model : Scalar) : Bool :=
-  match spec, model with
-  | .int n, m => if -(2 : Int) ^ 63 ≤ n && n < (2 : Int) ^ 63 then m = .int n
-                 else (m = .float .finite || m.isStr)
-  | .float .finite, m => m = .float .finite || m.isStr
-  | s, m => s = m
-
 def styleOf (s : String) : Style :=
   if s == "s" then .single else if s == "d" then .double else .other
 
@@ -87,7 +77,8 @@ def exec (a : List String) : String :=
     | some s =>
       let m := resolvePlainRs s
       let sp := coreResolve s
-      if resolveAgrees sp m then scalarStr m else s!"MODEL-SPEC {scalarStr m} spec={scalarStr sp}"
+      -- `resolve_plain_is_core_schema`: equal outside `deviates`
+      if deviates s || m = sp then scalarStr m else s!"MODEL-SPEC {scalarStr m} spec={scalarStr sp}"
   | ["qv", h, st, fl, _ind] =>
     match chars? h with
     | none => "BAD-UTF8"
